@@ -145,7 +145,7 @@ package cty
 // clauses are assumed at its call sites, not proved (C03; `ensures[assumed]`), and so is the absence of
 // panics for well-formed operands (`no_panic_assumed`).
 //@ func (cty.Value).Equals
-//@   tags C01 C03 C04
+//@   tags C01 C03 C04 C20
 //@   no_panic_assumed
 //@   requires (and (wf_deep val) (wf_deep other))
 //@   ensures[assumed] (and (is_bool_ty (vty result)) (wf_deep result) (not (is_null result)))
@@ -168,13 +168,21 @@ package cty
 // sets (C01): a known answer for two known sets of one type is given only when both are wholly known (a member
 // with unknown parts may turn out to be equal to a member of the other set)
 //@   ensures[C01] set_known_only_if_decided: (=> (and plainpair (is_set_ty (vty val)) (is_set_ty (vty other)) (ty_eq (vty val) (vty other)) (is_known result)) (and (wholly_known val) (wholly_known other)))
+// objects and maps (C20: the answer is a function of the operands, not of the order in which a Go map is
+// visited): one definitely different attribute / element decides False whatever else is undecided.
+// eq_false is the view "Equals answers a known False" (assumed functional, like eq_true).
+//@   ensures[assumed] (= (eq_false val other) (bool_payload (unmark result) false))
+//@   ensures[C20,C03] obj_false: ghost ((gk String)) :: (=> (and plainpair (is_obj_ty (vty val)) (ty_eq (vty val) (vty other)) (not (has_dyn (vty val))) (not (has_dyn (vty other))) (select (obj_dom (vty val)) gk) (eq_false (mkval (obj_aty (vty val) gk) (select (MapC<String~Any>.val (raw_mapc (cty.Value.v val))) gk)) (mkval (obj_aty (vty val) gk) (select (MapC<String~Any>.val (raw_mapc (cty.Value.v other))) gk)))) (bool_payload result false))
+//@   loop 1 invariant (forall ((k String)) (! (=> (select $visited k) (not (eq_false (mkval (obj_aty (vty val) k) (select (MapC<String~Any>.val (raw_mapc (cty.Value.v val))) k)) (mkval (obj_aty (vty val) k) (select (MapC<String~Any>.val (raw_mapc (cty.Value.v other))) k))))) :pattern ((select $visited k))))
+//@   ensures[C20,C03] map_false: ghost ((gk String)) :: (=> (and plainpair (is_map_ty (vty val)) (ty_eq (vty val) (vty other)) (not (has_dyn (vty val))) (not (has_dyn (vty other))) (select (MapC<String~Any>.dom (raw_mapc (cty.Value.v val))) gk) (eq_false (mkval (elem_ty (vty val)) (select (MapC<String~Any>.val (raw_mapc (cty.Value.v val))) gk)) (mkval (elem_ty (vty val)) (select (MapC<String~Any>.val (raw_mapc (cty.Value.v other))) gk)))) (bool_payload result false))
+//@   loop 6 invariant (forall ((k String)) (! (=> (select $visited k) (not (eq_false (mkval (elem_ty (vty val)) (select (MapC<String~Any>.val (raw_mapc (cty.Value.v val))) k)) (mkval (elem_ty (vty val)) (select (MapC<String~Any>.val (raw_mapc (cty.Value.v other))) k))))) :pattern ((select $visited k))))
 //@   ensures[C03] list_len: (=> (and plainpair (is_list_ty (vty val)) (bool_payload result true)) (= (Slice.len (pl_seq val)) (Slice.len (pl_seq other))))
 //@   ensures[C03] list_elems: (=> (and plainpair (is_list_ty (vty val)) (bool_payload result true)) (forall ((j Int)) (! (=> (and (trig j) (<= 0 j) (< j (Slice.len (pl_seq val)))) (eq_true (mkval (elem_ty (vty val)) (pl_seq_at val j)) (mkval (elem_ty (vty val)) (pl_seq_at other j)))) :pattern ((trig j)))))
-//@   loop 6 invariant (forall ((k String)) (! (=> (select $visited k) (and (select (MapC<String~Any>.dom (raw_mapc (cty.Value.v other))) k) (eq_true (mkval (elem_ty (vty val)) (select (MapC<String~Any>.val (raw_mapc (cty.Value.v val))) k)) (mkval (elem_ty (vty val)) (select (MapC<String~Any>.val (raw_mapc (cty.Value.v other))) k))))) :pattern ((select $visited k))))
+//@   loop 6 invariant (forall ((k String)) (! (=> (select $visited k) (and (select (MapC<String~Any>.dom (raw_mapc (cty.Value.v other))) k) (or undecided (eq_true (mkval (elem_ty (vty val)) (select (MapC<String~Any>.val (raw_mapc (cty.Value.v val))) k)) (mkval (elem_ty (vty val)) (select (MapC<String~Any>.val (raw_mapc (cty.Value.v other))) k)))))) :pattern ((select $visited k))))
 //@   ensures[C03] tuple_elems: (=> (and plainpair (is_tuple_ty (vty val)) (bool_payload result true)) (forall ((j Int)) (! (=> (and (trig j) (<= 0 j) (< j (tuple_len (vty val)))) (eq_true (mkval (tuple_at (vty val) j) (pl_seq_at val j)) (mkval (tuple_at (vty val) j) (pl_seq_at other j)))) :pattern ((trig j)))))
 //@   ensures[C03] obj_elems: (=> (and plainpair (is_obj_ty (vty val)) (bool_payload result true)) (forall ((k String)) (! (=> (select (obj_dom (vty val)) k) (eq_true (mkval (obj_aty (vty val) k) (select (MapC<String~Any>.val (raw_mapc (cty.Value.v val))) k)) (mkval (obj_aty (vty val) k) (select (MapC<String~Any>.val (raw_mapc (cty.Value.v other))) k)))) :pattern ((select (obj_dom (vty val)) k)))))
 //@   loop 2 invariant (forall ((j Int)) (! (=> (and (trig j) (<= 0 j) (< j $i)) (eq_true (mkval (tuple_at (vty val) j) (pl_seq_at val j)) (mkval (tuple_at (vty val) j) (pl_seq_at other j)))) :pattern ((trig j))))
-//@   loop 1 invariant (forall ((k String)) (! (=> (select $visited k) (eq_true (mkval (obj_aty (vty val) k) (select (MapC<String~Any>.val (raw_mapc (cty.Value.v val))) k)) (mkval (obj_aty (vty val) k) (select (MapC<String~Any>.val (raw_mapc (cty.Value.v other))) k)))) :pattern ((select $visited k))))
+//@   loop 1 invariant (forall ((k String)) (! (=> (and (select $visited k) (not undecided)) (eq_true (mkval (obj_aty (vty val) k) (select (MapC<String~Any>.val (raw_mapc (cty.Value.v val))) k)) (mkval (obj_aty (vty val) k) (select (MapC<String~Any>.val (raw_mapc (cty.Value.v other))) k)))) :pattern ((select $visited k))))
 //@   loop 3 invariant (forall ((j Int)) (! (=> (and (trig j) (<= 0 j) (< j $i)) (eq_true (mkval (elem_ty (vty val)) (pl_seq_at val j)) (mkval (elem_ty (vty val)) (pl_seq_at other j)))) :pattern ((trig j))))
 //
 //@ func (cty.Value).Equals$1
@@ -204,3 +212,8 @@ package cty
 //@   ensures[C01] false_only_if_decided: (=> (and plainops (is_set_ty (vty val)) (ty_eq (vty elem) (elem_ty (vty val))) (bool_payload result false)) (and (wholly_known val) (wholly_known elem)))
 //@   ensures[C01] type: (=> plainops (and (is_bool_ty (vty result)) (not (is_null result)) (not (is_marked result))))
 //@   ensures[C04] marks_kept: (forall ((k Any)) (! (=> (or (select (marks_of val) k) (select (marks_of elem) k)) (select (marks_of result) k)) :pattern ((select (marks_of result) k))))
+//
+// (assumed) a value whose type contains no dynamic placeholder has a wholly known type
+//@ func (cty.Value).HasWhollyKnownType
+//@   trusted
+//@   ensures (=> (not (has_dyn (vty val))) result)
